@@ -76,9 +76,12 @@ type Builder struct {
 
 // Desc is a derived spec: a base parrot plus edits. Pointer / empty fields mean "keep the base's value".
 type Desc struct {
-	Base        string   `json:"base"`
-	SrcCID      *int     `json:"src_cid,omitempty"`
-	DestCID     *int     `json:"dest_cid,omitempty"`
+	Base    string `json:"base"`
+	SrcCID  *int   `json:"src_cid,omitempty"`
+	DestCID *int   `json:"dest_cid,omitempty"`
+	// OwnGen > 0: the client Transport the spec is dialled through already carries its own ConnectionIDGenerator of
+	// this length (a property of the Transport, not of the spec: the spec's SrcConnIDLength must still win)
+	OwnGen      int      `json:"own_gen,omitempty"`
 	InitPN      *uint64  `json:"init_pn,omitempty"`
 	PNLen       *int     `json:"pn_len,omitempty"`      // single value
 	PNLens      []int    `json:"pn_lens,omitempty"`     // list (overrides PNLen)
@@ -327,6 +330,11 @@ type Options struct {
 	HeaderOnly  bool                      // only header-level knobs (no builder edits)
 	SuppressAny bool                      // also suppress flow-control / stream-count parameters
 	BigPN       bool                      // also draw first packet numbers near and beyond 2^62-1
+	// ShortDestCID: also draw destination connection ID lengths 1..7 (RFC 9000 7.2 asks for >= 8 on the first
+	// Initial; a server drops such packets, so only checks that need no answer may ask for this)
+	ShortDestCID bool
+	// OwnGenerator: also draw Desc.OwnGen
+	OwnGenerator bool
 	// ExactFit: about 3 descriptions in 10 (rapid favours small draws) become exact-fit plans (flight builders / per-datagram plans that fill
 	// their pinned PacketSize exactly, one byte below, or - Desc.Fit.Mode "over" - one byte beyond). Needs CHLen.
 	ExactFit bool
@@ -340,6 +348,12 @@ func Gen(t *rapid.T, o Options) Desc {
 	// generator keep their meaning
 	if o.ExactFit && !o.HeaderOnly && rapid.IntRange(0, 9).Draw(t, "exactfit") < 2 {
 		genExactFit(t, &d, o)
+	}
+	if o.ShortDestCID && rapid.SampledFrom([]int{0, 0, 0, 0, 0, 0, 0, 1, 1, 1}).Draw(t, "shortdst") == 1 {
+		d.DestCID = ip(rapid.IntRange(1, 7).Draw(t, "dst-short"))
+	}
+	if o.OwnGenerator && rapid.SampledFrom([]int{0, 0, 0, 0, 0, 0, 0, 1, 1, 1}).Draw(t, "owngen") == 1 {
+		d.OwnGen = rapid.SampledFrom([]int{4, 7, 8, 11, 16, 20}).Draw(t, "owngen-len")
 	}
 	return d
 }
